@@ -97,3 +97,16 @@ Record spair_obs := mkSPO {
 }.
 Definition sobserve_pair (a b : Z) : spair_obs :=
   mkSPO (a =? b) (a ?= b) (a =? b) (b <=? a) (a <=? b).
+
+(** per export (order of Hist.exports_u / Hist.exports_i): digit vectors and bytes are injective,
+    bits / count_ones / trailing_zeros are not *)
+Definition opt_eqb (x y : option Z) : bool :=
+  match x, y with Some a, Some b => a =? b | None, None => true | _, _ => false end.
+Definition sexports_eq (k : kind) (a b : Z) : list bool :=
+  let e := a =? b in
+  let bits := spec_bits a =? spec_bits b in
+  let tz := opt_eqb (spec_trailing_zeros a) (spec_trailing_zeros b) in
+  match k with
+  | KU => [e; e; e; e; bits; spec_count_ones a =? spec_count_ones b; tz]
+  | KI => [e; e; e; e; e; e; bits; tz]
+  end.
